@@ -11,7 +11,9 @@ MANIFEST = {
             "2-D path frame by frame for every centroider; quad-cell sign under mirroring; the FFT pipeline of cross_correlate is the "
             "circular cross-correlation (any field with roots of unity) and, over C on real non-negative images, the correlation "
             "centroid of a frame displaced by s from its reference is exactly (nx//2 + sx, ny//2 + sy) for every padding and "
-            "threshold < 1 when the correlation does not wrap around the padded frame. The model is tied to the code by "
+            "threshold < 1 when the correlation does not wrap around the padded frame; stated on the un-padded inputs "
+            "(corr_displacement_of_roll): im = numpy.roll(ref, s), content of ref in a box that stays inside the frame, lags "
+            "s ± (w-1) inside [-(P//2), P - P//2 - 1] (automatic for padding >= 2). The model is tied to the code by "
             "running the same Lean definitions at binary64 against the real functions (bit-exact on integer images with dyadic "
             "thresholds, 1e-9 on the FFT correlation); a direct oracle evaluates every clause on the real code.",
     "note": "Trusted: Lean kernel + standard axioms; numpy.fft2/ifft2 = nested naive DFT sums (checked by the correlation "
@@ -19,8 +21,9 @@ MANIFEST = {
             "centroiders' in the scale/shift clauses = centre_of_gravity, brightest_pixel, correlation_centroid (quadCell returns an "
             "un-normalised difference signal and has its own clause: sign under mirroring; its degree-1 homogeneity is proved "
             "instead); 'array centre' = index n//2 (the fftshift origin, as in C09); images must make the centroid defined "
-            "(positive total after thresholding). Not proved: reduction of the displacement theorem's padded-frame hypotheses to the "
-            "un-padded inputs (exercised by the oracle).",
+            "(positive total after thresholding). The displacement theorem's padded-frame hypotheses are reduced in Lean to the "
+            "un-padded inputs (roll of a boxed content, lag window); 'content' = pixels above the array minimum, which "
+            "correlation_centroid subtracts first.",
     "technique": "Lean 4 proof (Finset re-indexing, order statistics by sorting/counting, roots-of-unity orthogonality, ordered-field "
                  "algebra) + differential correspondence with the real code + oracle search",
 }
@@ -28,6 +31,8 @@ REQUIRED = ["cog_single_pixel", "bp_single_pixel", "cog_scale_invariant", "cog_s
             "cog_shift_equivariant", "bp_shift_equivariant",
             "corr_tail_displacement", "corr_tail_scale_invariant", "corr_tail_shift_equivariant",
             "xcorr_is_circular_correlation", "corr_displacement",
+            "corr_hdisp_of_roll", "corr_hnowrap_of_box", "corr_displacement_of_box", "corr_displacement_of_roll",
+            "corr_displacement_of_roll_pad_ge_two", "corr_displacement_of_roll_nonneg", "corr_displacement_of_roll_stack",
             "stack_eq_frames_cog", "stack_eq_frames_bp", "stack_eq_frames_quad", "stack_eq_frames_corr",
             "quad_mirror_sign", "quad_scale_linear", "pad_offset_even", "pad_offset_pinned_odd_fails", "cogN_pinned_fails"]
 TOL = 1e-9
@@ -446,6 +451,32 @@ def oracle(chk, quick):
             if not numpy.array_equal(keep_r, g):
                 bad("inplace:correlation_centroid:ref", "correlation_centroid modified its reference argument", im=arr.tolist(), ref=g.tolist())
 
+    # ---------------- 6. the domain of corr_displacement_of_roll_pad_ge_two: padding >= 2, content box of ANY extent up to the
+    # whole frame, ANY roll that keeps the box inside the frame (no lag condition), with or without a constant background
+    # (drawn after all other clauses, so that their samples are those of the earlier version of this check)
+    for it in range(60 if quick else 1500):
+        ny, nx = rng.randint(1, nmax), rng.randint(1, nmax)
+        pad = rng.choice([2, 3, 4] if quick else [2, 3, 4, 5, 6])
+        wy, wx = rng.randint(1, ny), rng.randint(1, nx)
+        y0, x0 = rng.randint(0, ny - wy), rng.randint(0, nx - wx)
+        sy, sx = rng.randint(-y0, ny - wy - y0), rng.randint(-x0, nx - wx - x0)
+        bg = float(rng.choice([0, 0, 5]))
+        ref = numpy.full((ny, nx), bg)
+        ref[y0:y0 + wy, x0:x0 + wx] += nprng.integers(1, 32, size=(wy, wx))
+        if ref.min() == ref.max():          # constant reference: no content, centroid undefined
+            continue
+        im = numpy.roll(ref, (sy, sx), axis=(0, 1))
+        t = rng.choice([0.0, 0.0, 0.25, 0.5, 0.875])
+        want = numpy.array([[nx // 2 + sx], [ny // 2 + sy]], dtype=float)
+        cls = "%s-n:%s-pad" % ("odd" if (ny % 2 or nx % 2) else "even", "even" if pad % 2 == 0 else "odd")
+        chk.oracle_cases += 1
+        chk.count("oracle:corr-anybox:" + cls)
+        chk.case(("corr-anybox", ny, nx, pad, wy, wx, sy, sx, t, bg), sample={"clause": "correlation displacement, padding >= 2, any box", "shape": [ny, nx], "box": [wy, wx], "padding": pad, "s": [sy, sx], "threshold": t} if it < 2 else None)
+        r, e = call(C.correlation_centroid, im[None], ref, threshold=t, padding=pad)
+        if not near(r, want):
+            bad("corr:displacement:anybox:" + cls, "correlation_centroid of a %dx%d image (content box %dx%d) displaced by (dy=%d,dx=%d) from its reference, padding=%d, threshold=%r: %s, expected centre (%d,%d) + s = %s"
+                % (ny, nx, wy, wx, sy, sx, pad, t, e or r.ravel().tolist(), nx // 2, ny // 2, want.ravel().tolist()), ref=ref.tolist(), s=[sy, sx], padding=pad, threshold=t)
+
 
 def run(chk):
     quick = chk.tier == "quick"
@@ -456,10 +487,10 @@ def run(chk):
     chk.assumptions = [
         "numpy.fft.fft2/ifft2 are the nested naive DFT sums and numpy.sort is an ascending sort (checked through the correspondence)",
         "binary64 rounding is not modelled (exact comparison only where the arithmetic is exact)",
-        "NOT PROVED in Lean: the reduction of corr_displacement's hypotheses to the un-padded inputs — (a) hdisp (padded frame = padded "
-        "reference displaced by s) from im = numpy.roll(ref, s) with the content inside the frame (equal minima, zero-padding commutes "
-        "with a non-wrapping roll); (b) hnowrap (the non-zero part of the correlation surface does not wrap) from the box condition "
-        "'lags s ± (w-1) inside [-(P//2), P - P//2 - 1]'. The displacement oracle draws exactly such boxes on the real code",
+        "correlation displacement (corr_displacement_of_roll) is proved for im = numpy.roll(ref, s) with the content of ref (pixels "
+        "above its minimum) in a box that stays inside the frame and lags s ± (w-1) inside [-(P//2), P - P//2 - 1] (automatic for "
+        "padding >= 2); for padding 1 displacements outside that lag window are outside the theorem (the correlation wraps there) and "
+        "are not drawn by the oracle either",
         "quadCell is read as a difference SIGNAL (own clause); its scale law proved is homogeneity of degree 1, not invariance",
         "brightest_pixel: int(round(threshold*nx*ny)) is computed by the harness, the model takes the pixel count k",
     ]
